@@ -309,6 +309,15 @@ def Scn.removeInter (s : Scn) (x : Id) : Scn × Option Err :=
   | none => (s, some .key)
   | some i => ({ s with net := s.net.removeInter x } : Scn).idsRemoveAll (x :: i.incomings.map (·.id))
 
+/-- scenario.py:1010-1024 `Scenario.remove_intersection` with a list: the single form for each element in turn,
+stopping at the first `KeyError`. -/
+def Scn.removeInters : Scn → List Id → Scn × Option Err
+  | s, [] => (s, none)
+  | s, x :: xs =>
+    match s.removeInter x with
+    | (s1, none) => s1.removeInters xs
+    | r => r
+
 inductive Op where
   | netRemoveLanelet (x : Id)
   | netRemoveSign (x : Id)
@@ -317,7 +326,10 @@ inductive Op where
   | scnRemoveLanelets (args : List RmArg) (referenced : Bool)
   | scnRemoveSigns (xs : List Id)
   | scnRemoveLights (xs : List Id)
-  | scnRemoveInter (x : Id)
+  /-- `Scenario.remove_intersection` (object: one id; list form: the ids in turn) -/
+  | scnRemoveInters (xs : List Id)
+  /-- `Scenario.remove_hanging_lanelet_members(args)` called directly (the lanelets themselves stay) -/
+  | scnRemoveHanging (args : List RmArg)
   /-- `create_from_lanelet_network`; the result becomes the network of a fresh scenario (`add_objects`). -/
   | cutOut (keep : List Id) (cleanup : Bool)
   /-- `create_from_lanelet_list`; the result becomes the network of a fresh scenario. -/
@@ -333,7 +345,8 @@ def Scn.step (s : Scn) : Op → Scn × Option Err
   | .scnRemoveLanelets args r => s.removeLanelets args r
   | .scnRemoveSigns xs => s.removeSigns xs
   | .scnRemoveLights xs => s.removeLights xs
-  | .scnRemoveInter x => s.removeInter x
+  | .scnRemoveInters xs => s.removeInters xs
+  | .scnRemoveHanging args => s.removeHanging args
   | .cutOut keep c =>
     match s.net.cutOut (fun a => keep.contains a) c with
     | .ok n' => ({ net := n', ids := n'.allIds }, none)
@@ -399,6 +412,7 @@ def Op.selSB (s : Scn) : Op → Id → Bool
   | .netRemoveSign x, t => t == x
   | .scnRemoveSigns xs, t => xs.contains t
   | .scnRemoveLanelets args r, t => r && (s.net.hangingSigns args).contains t
+  | .scnRemoveHanging args, t => (s.net.hangingSigns args).contains t
   | .cutOut keep _, t => !(s.net.lanelets.any fun l => keep.contains l.id && l.signs.contains t)
   | .fromList _ _, _ => true
   | _, _ => false
@@ -407,13 +421,14 @@ def Op.selTB (s : Scn) : Op → Id → Bool
   | .netRemoveLight x, t => t == x
   | .scnRemoveLights xs, t => xs.contains t
   | .scnRemoveLanelets args r, t => r && (s.net.hangingLights args).contains t
+  | .scnRemoveHanging args, t => (s.net.hangingLights args).contains t
   | .cutOut keep _, t => !(s.net.lanelets.any fun l => keep.contains l.id && l.lights.contains t)
   | .fromList _ _, _ => true
   | _, _ => false
 
 def Op.selKB (s : Scn) : Op → Id × Id → Bool
   | .netRemoveInter x, y => y.1 == x
-  | .scnRemoveInter x, y => y.1 == x
+  | .scnRemoveInters xs, y => xs.contains y.1
   | .cutOut keep _, y => s.net.inters.all fun i => !(i.id == y.1) || i.incomings.all fun k =>
       !(k.id == y.2) || cutDropsB (fun a => s.net.lids.contains a && keep.contains a) k
   | .fromList _ _, _ => true
@@ -421,7 +436,7 @@ def Op.selKB (s : Scn) : Op → Id × Id → Bool
 
 def Op.selIB (s : Scn) : Op → Id → Bool
   | .netRemoveInter x, y => y == x
-  | .scnRemoveInter x, y => y == x
+  | .scnRemoveInters xs, y => xs.contains y
   | .cutOut keep _, y => s.net.inters.all fun i => !(i.id == y) || i.incomings.all fun k =>
       cutDropsB (fun a => s.net.lids.contains a && keep.contains a) k
   | .fromList _ _, _ => true
